@@ -505,9 +505,17 @@ pub fn random_program(rng: &mut Rng, inject: u8) -> Program {
                     (4, Some(t)) if single_return => format!("    /// @returns: a {{@link {t}}} or {{@link {}::Nowhere{i}}}\n", modules[module]),
                     _ => String::new(),
                 };
+                // operation attributes travel in the request like everything else
+                let opattr = match rng.below(8) {
+                    0 if ret.is_empty() => "    [oneway]\n",
+                    1 => "    [compress(Args, Return)]\n",
+                    2 => "    [compress(Args)]\n",
+                    3 => "    [cs::encodedReturn]\n",
+                    _ => "",
+                };
                 let idem = if rng.chance(1, 3) { "idempotent " } else { "" };
                 let second = if rng.chance(1, 2) { format!("\n    second{i}(tag(1) a: {}?, b: stream {})", (*rng.pick(&prim)), (*rng.pick(&prim))) } else { String::new() };
-                format!("{doc}{attr}interface {name}{inherit} {{\n{opdoc}    {idem}op{i}(p: {t}){ret}{second}\n}}\n")
+                format!("{doc}{attr}interface {name}{inherit} {{\n{opdoc}{opattr}    {idem}op{i}(p: {t}){ret}{second}\n}}\n")
             }
             Kind::Custom => format!("{doc}{attr}custom {name}\n"),
         };
